@@ -223,7 +223,7 @@ pub(crate) fn version(cmd: &clap::Command) -> String {
         "v{}",
         cmd.get_long_version()
             .or_else(|| cmd.get_version())
-            .unwrap()
+            .unwrap_or_default()
     )
 }
 
